@@ -62,7 +62,7 @@ func init() {
 	reg(&Prop{ID: "C07", Level: "exploration",
 		Quick:    Tier{Cases: 3200, PerJob: 200, Seconds: 60},
 		Thorough: Tier{Cases: 160000, PerJob: 2500, Seconds: 1500},
-		Rule:     "one case = one entry point (AssembleFile incl. seed validation, VerifyIndex on a file with one damaged byte, ChopFile, Copy, ChunkStream, IndexFromFile, Tar, UnTar, UnTarIndex) with a tape-built workload and worker count; run A records a seeded schedule of S steps without cancellation, then the same schedule is re-run with the context cancelled before scheduling decision k for every k in 0..S+1 (S <= 150) or 60 tape-chosen k (sub_evaluations counts these runs); oracle: nil result => work complete (target == blob / every chunk stored / index covers the input / tree complete), the call returns, no panic; distinct = distinct (entry point, schedule hashes); non-trivial = at least one cancellation fired; 1/10 of the cases run the real `desync` binary (extract with/without --in-place, --print-stats, -c cache; chop; cache; make with/without --print-stats; untar -i with/without cache; -n 1 or 3) against a gated loopback chunk server that holds request k while SIGINT or SIGTERM is delivered, for k = 1, last and 6 tape-chosen k: exit status 0 => work complete, a failed extract leaves the destination as it was; the process-level share also covers tar -i (PUT held) and untar --output-format gnu-tar (complete = a well-formed archive listing every entry with its content)",
+		Rule:     "one case = one entry point (AssembleFile incl. seed validation, VerifyIndex on a file with one damaged byte, ChopFile, Copy, ChunkStream, IndexFromFile, Tar, UnTar, UnTarIndex) with a tape-built workload and worker count; run A records a seeded schedule of S steps without cancellation, then the same schedule is re-run with the context cancelled before scheduling decision k for every k in 0..S+1 (S <= 150) or 60 tape-chosen k (sub_evaluations counts these runs); oracle: nil result => work complete (target == blob / every chunk stored / index covers the input / tree complete), the call returns, no panic; distinct = distinct (entry point, schedule hashes); non-trivial = at least one cancellation fired; 1/10 of the cases run the real `desync` binary (extract with/without --in-place, --print-stats, -c cache; chop; cache; make with/without --print-stats; untar -i with/without cache; -n 1 or 3) against a gated loopback chunk server that holds request k while SIGINT or SIGTERM is delivered, for k = 1, last and 6 tape-chosen k: exit status 0 => work complete, a failed extract leaves the destination as it was; the process-level share also covers tar -i (PUT held) and untar --output-format gnu-tar (complete = a well-formed archive listing every entry with its content); one process-level case in eight instead runs `desync prune` against a simulated S3 endpoint (2..12 objects under one of three prefixes, some referenced by the index) that holds the first LIST or the k-th DELETE while the signal is delivered, four runs per hold point: exit 0 => no unreferenced object is left",
 		Assumptions: []string{
 			"cancellation is delivered between two scheduling decisions (channel/lock/store operation granularity)",
 			"a cancelled call that did finish its work may return nil or an error; only nil with incomplete work is a violation",
@@ -85,7 +85,7 @@ func init() {
 	reg(&Prop{ID: "C11", Level: "exploration",
 		Quick:    Tier{Cases: 160000, PerJob: 10000, Seconds: 60},
 		Thorough: Tier{Cases: 8000000, PerJob: 100000, Seconds: 1500},
-		Rule:     "one case = chain shape as the CLI builds it (router of 1..3 elements, each a store or a failover group of 2..4, optionally under a cache with or without repair, optionally under a SwapStore with a second chain swapped in by a reconfiguration task, or - as the writable chunk server builds it - one writable member under a SwapWriteStore with Get/Has/Store clients) x per-member content per id {has, missing, invalid} x per-member fault schedule {healthy, always failing, failing during calls k..k+j} x 1..4 client tasks issuing 1..8 Get/Has over 2..4 ids under the seeded scheduler; oracle: per operation the member calls made by that task must be exactly the calls the documented policy makes given the observed member outcomes, and the result must be what the policy yields (swap: old chain before, new chain after, exactly one of them when overlapping; old members closed once, after their in-flight requests, never used afterwards); distinct = distinct (shape, clients, trace hash, member-call count); non-trivial = preemption or member fault fired; 1/400 of the cases give the real `desync cat` / `desync extract -n 1` a chain on its command line (1..3 -s arguments, each a local directory, a loopback HTTP server or a a|b|c failover group of those; optional -c cache pre-filled with valid and invalid chunks, with the default --cache-repair or --cache-repair=false; members healthy, answering 503 to everything, or dead; per-chunk content present / missing / a valid object of other data): exit status and output must be what the documented policy yields, every answering HTTP member must have seen exactly the requests the policy predicts, in order, and after a success the cache holds every chunk valid; a quarter of these cases instead start the real `desync chunk-server --store-file f [-u]` (with or without a cache in the file), hold a request in the old upstream, rewrite f to a second upstream and send SIGHUP while a steady stream of requests for a chunk both upstreams hold keeps going: the in-flight request must complete with the right data, the stream must never see an error, and afterwards the new chain answers (a chunk only the old one had is missing)",
+		Rule:     "one case = chain shape as the CLI builds it (router of 1..3 elements, each a store or a failover group of 2..4, optionally under a cache with or without repair, optionally under a SwapStore with a second chain swapped in by a reconfiguration task, or - as the writable chunk server builds it - one writable member under a SwapWriteStore with Get/Has/Store clients) x per-member content per id {has, missing, invalid} x per-member fault schedule {healthy, always failing, failing during calls k..k+j} x 1..4 client tasks issuing 1..8 Get/Has over 2..4 ids under the seeded scheduler; oracle: per operation the member calls made by that task must be exactly the calls the documented policy makes given the observed member outcomes (with a single client the failover member tried after an error is predicted exactly; with several it must be one the group could have been pointing at), and the result must be what the policy yields (swap: old chain before, new chain after, exactly one of them when overlapping; old members closed once, after their in-flight requests, never used afterwards); distinct = distinct (shape, clients, trace hash, member-call count); non-trivial = preemption or member fault fired; 1/400 of the cases give the real `desync cat` / `desync extract -n 1` a chain on its command line (1..3 -s arguments, each a local directory, a loopback HTTP server or a a|b|c failover group of those; optional -c cache pre-filled with valid and invalid chunks, with the default --cache-repair or --cache-repair=false; members healthy, answering 503 to everything, or dead; per-chunk content present / missing / a valid object of other data): exit status and output must be what the documented policy yields, every answering HTTP member must have seen exactly the requests the policy predicts, in order, and after a success the cache holds every chunk valid; a quarter of these cases instead start the real `desync chunk-server --store-file f [-u]` (with or without a cache in the file), hold a request in the old upstream, rewrite f to a second upstream and send SIGHUP while a steady stream of requests for a chunk both upstreams hold keeps going: the in-flight request must complete with the right data, the stream must never see an error, and afterwards the new chain answers (a chunk only the old one had is missing)",
 		Assumptions: []string{
 			"which failover member is consulted at each attempt is not predicted (it depends on a shared index); the oracle bounds attempts by the group size and requires success whenever one member never fails",
 			"de-duplication queues in chains are covered by C12, not here",
@@ -187,7 +187,7 @@ func init() {
 	reg(&Prop{ID: "C08", Level: "fault_enumeration",
 		Quick:    Tier{Cases: 480, PerJob: 30, Seconds: 80},
 		Thorough: Tier{Cases: 16000, PerJob: 500, Seconds: 1500},
-		Rule:     "part A (local store): one case = workload {ChopFile, Copy, n+1 tasks storing the same chunks at once} x compressed/uncompressed LocalStore x n in 1..4 x blob of 1..12 chunks; a seeded schedule in which every file-system call is a scheduling point is recorded, then re-run with process death at EVERY file-system point k (<= 120 points; 80 sampled otherwise), each in two variants: death exactly at the point, and death during the write that just happened (a file that was created or grew in the last step is cut to a tape-chosen shorter length: torn write); after each death an independent validator (klauspost zstd + SHA512/256, not desync) checks that every file under a chunk name decodes and hashes to its name and everything else is a .tmp-cacnk* file, Prune removes exactly the temporary files, and (every 7th point) a restart completes the work; sub_evaluations = deaths; part B (1/4 of the cases): the real `desync extract` binary (with/without --in-place, with/without --seed, -n 1 or 4, destination absent / old version / other content) is SIGKILLed while GET request k is held by a gated loopback chunk server, for EVERY k: without --in-place the destination must be untouched, with it a re-run must complete correctly without refetching chunks already written; part C (1/8 of the cases): the real binary (extract, extract --in-place, chop, cache, make into a local store; -n 1 or 3; extract also with --print-stats) runs as a ptrace tracee of the harness, every system call of every thread is inspected, and the process is SIGKILLed in front of the k-th call that changes the file system (open with O_CREAT/O_TRUNC, write/pwrite to a file of the case, truncate, rename, unlink, mkdir, chmod, chown, fsync, link, utimensat, fallocate, clone ioctls, xattr calls), for EVERY k when there are <= 50 such calls, else the first 4, the last 12 and 30 tape-chosen ones: extract must leave the destination in its previous state or complete, extract --in-place must complete on a re-run, the target store must pass the independent validator and a re-run must complete; distinct = distinct (workload, n, format, schedule hash, number of points); non-trivial = a death was injected",
+		Rule:     "part A (local store): one case = workload {ChopFile, Copy, n+1 tasks storing the same chunks at once} x compressed/uncompressed LocalStore x n in 1..4 x blob of 1..12 chunks; a seeded schedule in which every file-system call is a scheduling point is recorded, then re-run with process death at EVERY file-system point k (<= 120 points; 80 sampled otherwise), each in two variants: death exactly at the point, and death during the write that just happened (a file that was created or grew in the last step is cut to a tape-chosen shorter length: torn write); after each death an independent validator (klauspost zstd + SHA512/256, not desync) checks that every file under a chunk name decodes and hashes to its name and everything else is a .tmp-cacnk* file, Prune removes exactly the temporary files, and (every 7th point) a restart completes the work; sub_evaluations = deaths; part B (1/4 of the cases): the real `desync extract` binary (with/without --in-place, with/without --seed, -n 1 or 4, destination absent / old version / other content) is SIGKILLed while GET request k is held by a gated loopback chunk server, for EVERY k: without --in-place the destination must be untouched, with it a re-run must complete correctly without refetching chunks already written (a chunk counts as written when, read off the file after the kill, every range of its id holds its bytes; with one worker the first range suffices, later occurrences are copied from the target); part C (1/8 of the cases): the real binary (extract, extract --in-place, chop, cache, make into a local store; -n 1 or 3; extract also with --print-stats) runs as a ptrace tracee of the harness, every system call of every thread is inspected, and the process is SIGKILLed in front of the k-th call that changes the file system (open with O_CREAT/O_TRUNC, write/pwrite to a file of the case, truncate, rename, unlink, mkdir, chmod, chown, fsync, link, utimensat, fallocate, clone ioctls, xattr calls), for EVERY k when there are <= 50 such calls, else the first 4, the last 12 and 30 tape-chosen ones: extract must leave the destination in its previous state or complete, extract --in-place must complete on a re-run, the target store must pass the independent validator and a re-run must complete; distinct = distinct (workload, n, format, schedule hash, number of points); non-trivial = a death was injected",
 		Assumptions: []string{
 			"process death = freezing every task at a file-system point: equivalent to SIGKILL for file contents (page cache survives, no user-space buffering on this path); power loss is out of scope of the property",
 			"a torn write is modelled at whole-file granularity on the file that grew in the last step",
